@@ -75,6 +75,13 @@ def run(ctx):
             continue
         pushes = [c for st in w.body for c in method_calls(st, "append", wl)]
         pops = [c for st in w.body for c in method_calls(st, "pop", wl)]
+        if pops and not pushes:
+            # a work-list that is only drained terminates trivially; whether the
+            # children are pushed at all is R2's business (selection)
+            nwl += 1
+            ctx.ok("C05.R1", f"children:no-push:{wl}", nontrivial=False,
+                   sample="work-list is never extended inside the loop")
+            continue
         if not pushes or not pops:
             continue
         nwl += 1
@@ -141,7 +148,8 @@ def run(ctx):
     # ------------------------------------------------------------------- R2
     ctx.rule("C05.R2", "every result.append(child) in children() is control-"
              "dependent on self.create_time() <= child.create_time() and on a test "
-             "that excludes the caller's own PID", floor=2)
+             "that excludes the caller's own PID; the candidates are exactly the table "
+             "rows whose parent is the caller (flat) / reachable from it (recursive)", floor=4)
     ret_name = None
     last = ch.node.body[-1]
     if isinstance(last, ast.Return):
@@ -184,6 +192,82 @@ def run(ctx):
                          f"excludes {cpid} == self.pid (a self-loop or a cycle through "
                          f"the caller in the ppid table returns the process as its own "
                          f"descendant)")
+
+    # selection: WHICH processes are looked at.  flat: the table rows whose value
+    # (ppid) equals self.pid, child = the row's key.  recursive: rows grouped by
+    # parent (reverse[ppid].append(pid)), walked from [self.pid], children of the
+    # popped pid pushed.
+    def enclosing_fors(target):
+        return [f_ for f_ in ast.walk(ch.node) if isinstance(f_, ast.For)
+                and any(x is target for x in ast.walk(f_))]
+    tables = {dotted(st.targets[0]) for st in ast.walk(ch.node) if isinstance(st, ast.Assign)
+              and isinstance(st.value, ast.Call) and dotted(st.value.func) in ("_ppid_map", "ppid_map")}
+    for ap in appends:
+        obj = norm_stmt(ap.args[0])
+        rec_ = _in_while(ch.node, ap)
+        key = f"children:select:{'rec' if rec_ else 'flat'}"
+        n0 = cfg.owners(ap)[0]
+        cpid = _ctor_pid(cfg, n0, ch.node, obj)
+        cmps = true_compares(cfg, n0, ch.node)
+        fors = enclosing_fors(ap)
+        why = None
+        if not rec_:
+            rows = [f_ for f_ in fors if isinstance(f_.iter, ast.Call)
+                    and isinstance(f_.iter.func, ast.Attribute) and f_.iter.func.attr == "items"
+                    and dotted(f_.iter.func.value) in tables
+                    and isinstance(f_.target, ast.Tuple) and len(f_.target.elts) == 2]
+            if not rows:
+                why = "the children are not selected from the rows of the ppid table"
+            else:
+                k, v = (dotted(x) for x in rows[-1].target.elts)
+                if cpid != k:
+                    why = f"the child is built from `{cpid}`, not from the row's pid `{k}`"
+                elif not any(op is ast.Eq and {l, r} == {v, "self.pid"} for l, op, r in cmps):
+                    why = (f"no test `{v} == self.pid` selects the rows: processes whose "
+                           f"parent is another process would be reported as children")
+        else:
+            inner = [f_ for f_ in fors if isinstance(f_.iter, ast.Subscript)]
+            if not inner or dotted(inner[-1].target) != cpid:
+                why = "the child is not taken from the per-parent list of the popped pid"
+            else:
+                rv = dotted(inner[-1].iter.value)
+                popped = dotted(inner[-1].iter.slice)
+                build = [c for c in calls_in(ch.node) if isinstance(c.func, ast.Attribute)
+                         and c.func.attr == "append" and isinstance(c.func.value, ast.Subscript)
+                         and dotted(c.func.value.value) == rv]
+                okb = False
+                for c in build:
+                    bf = [f_ for f_ in enclosing_fors(c) if isinstance(f_.iter, ast.Call)
+                          and isinstance(f_.iter.func, ast.Attribute)
+                          and f_.iter.func.attr == "items" and dotted(f_.iter.func.value) in tables
+                          and isinstance(f_.target, ast.Tuple) and len(f_.target.elts) == 2]
+                    if bf:
+                        k, v = (dotted(x) for x in bf[-1].target.elts)
+                        if dotted(c.func.value.slice) == v and c.args and dotted(c.args[0]) == k:
+                            okb = True
+                pops = [st for st in ast.walk(ch.node) if isinstance(st, ast.Assign)
+                        and dotted(st.targets[0]) == popped and isinstance(st.value, ast.Call)
+                        and isinstance(st.value.func, ast.Attribute) and st.value.func.attr == "pop"]
+                stack = dotted(pops[0].value.func.value) if pops else None
+                init = [st for st in ast.walk(ch.node) if isinstance(st, ast.Assign)
+                        and dotted(st.targets[0]) == stack] if stack else []
+                start_ok = init and norm_stmt(init[0].value).replace(" ", "") in (
+                    "[self.pid]", "collections.deque([self.pid])", "deque([self.pid])")
+                push_ok = any(isinstance(c.func, ast.Attribute) and c.func.attr in ("append", "extend")
+                              and dotted(c.func.value) == stack and c.args
+                              and dotted(c.args[0]) == cpid for c in calls_in(inner[-1]))
+                if not okb:
+                    why = f"`{rv}` is not built as {{ppid: [pids]}} from the ppid table"
+                elif not (pops and start_ok):
+                    why = "the walk does not start from [self.pid]"
+                elif not push_ok:
+                    why = f"accepted children are not pushed back (`{stack}.append({cpid})`): " \
+                          f"grandchildren would be missing"
+        if why:
+            ctx.fail("C05.R2", key, ch.file, ap.lineno, ch.qual, f"children(): {why}")
+        else:
+            ctx.ok("C05.R2", key, sample="rows with ppid == self.pid" if not rec_ else
+                   "reverse[ppid].append(pid); walk from [self.pid]; push accepted children")
 
     # ------------------------------------------------------------------- R3
     ctx.rule("C05.R3", "recycled caller: children() runs the identity guard before "
